@@ -938,6 +938,10 @@ func (s *Store) monitorLeaseAsPrimary(ctx context.Context, lease Lease) error {
 		}
 
 		log.Printf("set cluster id on %q lease %q", s.Leaser.Type(), clusterID)
+	} else if local := s.ClusterID(); v != local {
+		// The leaser had no cluster ID (or ours) when it was checked before the
+		// acquisition and has been initialized for another cluster since.
+		return fmt.Errorf("cannot become primary, local cluster id %q does not match %q lease cluster id %q", local, s.Leaser.Type(), v)
 	}
 
 	// Mark as the primary node while we're in this function.
